@@ -30,6 +30,10 @@ const (
 
 const none = -1
 
+// idle: nobody is current; a task released from the runtime may claim the
+// baton, or the lowest waiting task re-decides after StallSpins rotations.
+const idle = -3
+
 // MaxSites bounds site numbers.
 const MaxSites = 64
 
@@ -54,6 +58,12 @@ type Sched struct {
 
 	Sites    [MaxSites]bool
 	GateSite int
+	// Statement-level sites (inserted automatically before every statement
+	// of the packages under test) offer a decision only every SparseEvery-th
+	// time they are reached.
+	SparseSites [MaxSites]bool
+	SparseEvery int
+	sparseCnt   int
 
 	Policy   int
 	StayNum  int // sticky: stay with probability StayNum/16
@@ -73,6 +83,22 @@ type Sched struct {
 	Record bool
 	rawLog []int
 	nlog   int
+
+	// Tasks found blocked inside the Go runtime (a real Lock that no gate
+	// precedes, an RWMutex, a channel ...): the simulator carries on with the
+	// others and re-synchronises with such a task at its next simulation
+	// point. Detection is by rotation counting, not by a clock: with one P a
+	// runnable current task is scheduled once per Gosched rotation of the
+	// waiters, so StallSpins rotations without a decision mean it is not
+	// runnable.
+	rtBlocked  []bool
+	abandoned  []bool
+	goid       []int64
+	spin       []int
+	seenStep   []int
+	nRT        int
+	RTBlocks   int
+	StallSpins int
 
 	// LastMu is the mutex most recently seen at a gate site: lets the harness
 	// notice a mutex left locked after every operation has returned.
@@ -150,6 +176,12 @@ func New(n int, rng *kit.Rng, replay []int, maxSteps int) *Sched {
 	s.waitMu = make([]*sync.Mutex, n)
 	s.Choices = make([]int, maxSteps+n+8)
 	s.prio = make([]int, n)
+	s.rtBlocked = make([]bool, n)
+	s.abandoned = make([]bool, n)
+	s.goid = make([]int64, n)
+	s.spin = make([]int, n)
+	s.seenStep = make([]int, n)
+	s.StallSpins = 20000
 	return s
 }
 
@@ -172,7 +204,7 @@ func (s *Sched) SetPCT(r *kit.Rng, d, horizon int) {
 
 //go:norace
 func (s *Sched) enabled(t int) bool {
-	if s.done[t] {
+	if s.done[t] || s.rtBlocked[t] {
 		return false
 	}
 	if mu := s.waitMu[t]; mu != nil && MutexLocked(mu) {
@@ -280,7 +312,130 @@ func (s *Sched) wait(me int) {
 			runtime.Goexit()
 		}
 		runtime.Gosched()
+		if s.seenStep[me] != s.Steps || s.current == none {
+			s.seenStep[me], s.spin[me] = s.Steps, 0
+			continue
+		}
+		s.spin[me]++
+		if s.spin[me] > s.StallSpins {
+			s.takeOver(me)
+		}
 	}
+	s.spin[me] = 0
+}
+
+// takeOver is reached by a waiting task when the current task has not come
+// to a decision for StallSpins rotations: it is blocked inside the runtime.
+// Only the lowest-numbered waiting task acts, so the outcome does not depend
+// on which waiter noticed first.
+//
+//go:norace
+func (s *Sched) takeOver(me int) {
+	x := s.current
+	if x == me || x == none {
+		return
+	}
+	if x >= 0 && (s.done[x] || s.rtBlocked[x]) {
+		return
+	}
+	for t := 0; t < me; t++ {
+		if t != x && !s.done[t] && !s.rtBlocked[t] {
+			return // a lower-numbered waiter will act
+		}
+	}
+	s.spin[me] = 0
+	if x >= 0 {
+		s.rtBlocked[x] = true
+		s.nRT++
+		s.RTBlocks++
+	}
+	s.Steps++
+	bump()
+	next := s.pick(none)
+	s.note(x, 63, next)
+	if next != none {
+		s.current = next
+		return
+	}
+	if x == idle {
+		// nobody became runnable during a whole stall period: the tasks
+		// blocked inside the runtime are blocked for good
+		s.Deadlock = true
+		s.abortAll()
+		runtime.Goexit()
+	}
+	s.current = idle
+}
+
+// drain lets tasks that the runtime has released since the last decision
+// reach their next simulation point (where they re-join the waiters), so that
+// whether they take part in this decision does not depend on the Go
+// scheduler: with one P a released task runs at the first Gosched and is at
+// its next simulation point well within a few rotations.
+//
+//go:norace
+func (s *Sched) drain() {
+	if s.nRT == 0 {
+		return
+	}
+	for i := 0; i < 64; i++ {
+		runtime.Gosched()
+	}
+}
+
+// abortAll cuts the run; tasks blocked inside the runtime cannot exit, so
+// the join is released on their behalf and they are abandoned.
+//
+//go:norace
+func (s *Sched) abortAll() {
+	s.abort = true
+	for t := 0; t < s.n; t++ {
+		if s.rtBlocked[t] && !s.abandoned[t] {
+			s.abandoned[t] = true
+			s.wg.Done()
+		}
+	}
+}
+
+// curGoid parses the goroutine id from the stack header (only used while
+// some task is blocked inside the runtime).
+//
+//go:norace
+func curGoid() int64 {
+	var buf [64]byte
+	n := runtime.Stack(buf[:], false)
+	var id int64
+	for i := len("goroutine "); i < n && buf[i] >= '0' && buf[i] <= '9'; i++ {
+		id = id*10 + int64(buf[i]-'0')
+	}
+	return id
+}
+
+// resync is called at a simulation point while some task is blocked inside
+// the runtime: the caller may be such a task that has just been released. It
+// then waits for its turn like any other task. Returns the caller's id.
+//
+//go:norace
+func (s *Sched) resync() int {
+	g := curGoid()
+	for t := 0; t < s.n; t++ {
+		if s.goid[t] == g {
+			if s.rtBlocked[t] {
+				s.rtBlocked[t] = false
+				s.nRT--
+				if s.current == idle {
+					s.Steps++
+					bump()
+					s.note(t, 62, t)
+					s.current = t
+				} else {
+					s.wait(t)
+				}
+			}
+			return t
+		}
+	}
+	return s.current
 }
 
 //go:norace
@@ -302,9 +457,24 @@ func (s *Sched) note(me, site, next int) {
 //
 //go:norace
 func (s *Sched) Yield(site int, mu *sync.Mutex) {
+	if s.abort {
+		return
+	}
 	me := s.current
+	if s.nRT > 0 {
+		me = s.resync()
+	}
 	if me < 0 || s.abort {
 		return
+	}
+	if site >= 0 && site < MaxSites && s.SparseSites[site] {
+		if !s.Sites[site] {
+			return
+		}
+		s.sparseCnt++
+		if s.SparseEvery > 1 && s.sparseCnt%s.SparseEvery != 0 {
+			return
+		}
 	}
 	gate := mu != nil && site == s.GateSite
 	if gate {
@@ -316,23 +486,29 @@ func (s *Sched) Yield(site int, mu *sync.Mutex) {
 	} else if !s.Sites[site] {
 		return
 	}
+	s.drain()
 	s.SiteHits[site]++
 	s.Steps++
 	bump()
 	if s.Steps > s.MaxSteps {
 		s.StepBound = true
-		s.abort = true
+		s.abortAll()
 		runtime.Goexit()
 	}
 	next := s.pick(me)
-	if next == none {
+	if next == none && s.nRT == 0 {
 		s.Deadlock = true
-		s.abort = true
+		s.abortAll()
 		s.note(me, site, next)
 		runtime.Goexit()
 	}
 	s.note(me, site, next)
-	if next != me {
+	if next == none {
+		// only tasks blocked inside the runtime could still move: give them
+		// a stall period to come back before calling it a deadlock
+		s.current = idle
+		s.wait(me)
+	} else if next != me {
 		s.current = next
 		s.wait(me)
 	}
@@ -355,6 +531,21 @@ func (s *Sched) finish(me int) {
 	if s.abort {
 		return
 	}
+	if s.rtBlocked[me] {
+		// released from the runtime and ran to its end without meeting a
+		// simulation point: it was never current again
+		s.rtBlocked[me] = false
+		s.nRT--
+		s.done[me] = true
+		if s.current == idle {
+			next := s.pick(none)
+			if next != none {
+				s.current = next
+			}
+		}
+		return
+	}
+	s.drain()
 	s.done[me] = true
 	s.Steps++
 	bump()
@@ -363,8 +554,12 @@ func (s *Sched) finish(me int) {
 	if next == none {
 		for t := 0; t < s.n; t++ {
 			if !s.done[t] {
+				if s.nRT > 0 {
+					s.current = idle
+					return
+				}
 				s.Deadlock = true
-				s.abort = true
+				s.abortAll()
 				return
 			}
 		}
@@ -377,7 +572,7 @@ func (s *Sched) finish(me int) {
 // Abort cuts the run (called by a task whose body panicked).
 //
 //go:norace
-func (s *Sched) Abort() { s.abort = true }
+func (s *Sched) Abort() { s.abortAll() }
 
 // Aborted reports whether the run was cut (deadlock or step bound).
 //
@@ -398,14 +593,42 @@ func (s *Sched) Run(bodies []func()) {
 	for i := range bodies {
 		id, body := i, bodies[i]
 		go func() {
-			defer s.wg.Done()
-			s.wait(id) // pure wait: never writes scheduler state before first scheduled
+			defer s.leave(id)
+			s.setGoid(id)
+			s.wait(id) // pure wait: takes no decision before first scheduled
 			body()
 			s.finish(id)
 		}()
 	}
 	s.start()
 	s.wg.Wait()
+}
+
+//go:norace
+func (s *Sched) setGoid(id int) { s.goid[id] = curGoid() }
+
+// leave releases the join for a task, unless the join was already released
+// on its behalf (abandoned while blocked inside the runtime).
+func (s *Sched) leave(id int) {
+	if !s.isAbandoned(id) {
+		s.wg.Done()
+	}
+}
+
+//go:norace
+func (s *Sched) isAbandoned(id int) bool { return s.abandoned[id] }
+
+// Abandoned counts tasks left blocked inside the runtime.
+//
+//go:norace
+func (s *Sched) Abandoned() int {
+	n := 0
+	for _, a := range s.abandoned {
+		if a {
+			n++
+		}
+	}
+	return n
 }
 
 //go:norace
